@@ -230,13 +230,13 @@ def c19(pid, tier, seed, selftest=False):
 
 
 def erase_cfg(steps, slots, variant, emit):
-    return ('SPECIFICATION Spec\nCONSTANTS\n  MaxSteps = %d\n  NSlots = %d\n  Variant = "%s"\nINVARIANT ErasedAtRelease\nINVARIANT LiveUntouched\n%sCHECK_DEADLOCK FALSE\n'
+    return ('SPECIFICATION Spec\nCONSTANTS\n  MaxSteps = %d\n  NSlots = %d\n  Variant = "%s"\nINVARIANT ErasedAtRelease\nINVARIANT LiveUntouched\nINVARIANT HoldersExact\n%sCHECK_DEADLOCK FALSE\n'
             % (steps, slots, variant, "INVARIANT Emit\n" if emit else ""))
 
 
 def c20(pid, tier, seed, selftest=False):
     rep = Report(pid, tier, seed)
-    rep.rule = ("every program of n construct / clone / drop steps over 3 slots and the constructors {PrivateKey::generate, "
+    rep.rule = ("every program of n construct / clone / drop / drop-two-handles-concurrently steps over 3 slots and the constructors {PrivateKey::generate, "
                 "PrivateKey::try_from, PayloadKey::new (boxed)}, enumerated by TLC from Erase.tla (ErasedAtRelease, LiveUntouched), is "
                 "executed on the real containers with each secret's heap block registered in the harness allocator, which inspects the "
                 "bytes at the moment the block is released; objects still live at the end are dropped in slot order; "
@@ -253,13 +253,28 @@ def c20(pid, tier, seed, selftest=False):
     rep.add_model("erase-mc", res, "all programs of %d steps; emits them" % n)
     if res.violated:
         raise ToolError("Erase model violates " + res.violated)
+    # the other conforming way of cloning (one shared block, the last holder wipes and releases) satisfies the same contract
+    r2 = run_tlc(pid, "erase-shared", "Erase", erase_cfg(n, 3, "SharedLastWipes", False), workers=1, timeout=900)
+    rep.add_model("erase-shared", r2, "the contract also admits clones that share one block released by the last holder")
+    if r2.violated:
+        raise ToolError("Erase model (SharedLastWipes) violates " + r2.violated)
     if thorough or selftest:
-        for v, inv in [("NoDropErase", "ErasedAtRelease"), ("EraseCopy", "ErasedAtRelease"), ("SharedClone", "LiveUntouched")]:
+        for v, inv in [("NoDropErase", "ErasedAtRelease"), ("EraseCopy", "ErasedAtRelease"), ("SharedClone", "LiveUntouched"),
+                       ("SharedRacy", "ErasedAtRelease")]:
             r = run_tlc(pid, "neg-" + v, "Erase", erase_cfg(3, 3, v, False), workers=1, timeout=120)
             rep.add_model("neg-" + v, r, "deviation must break " + inv)
             if r.violated != inv:
                 raise ToolError("negative variant %s: got %s" % (v, r.violated))
-    scen = [{"op": "erase", "id": "e%d" % i, "prog": r["prog"]} for i, r in enumerate(res.replays)]
+    progs, seen = [], set()
+    for r in res.replays:            # a program with a concurrent drop is printed once per interleaving
+        k = json.dumps(r["prog"], sort_keys=True)
+        if k not in seen:
+            seen.add(k)
+            progs.append(r["prog"])
+    # programs with two handles dropped by two threads at once are executed many times (the interleaving is the machine's)
+    scen = [{"op": "erase", "id": "e%d" % i, "prog": p, "repeat": 300 if any(x["op"] == "drop2" for x in p) else 1}
+            for i, p in enumerate(progs)]
+    rep.extra["programs_with_concurrent_drops"] = sum(1 for s_ in scen if s_["repeat"] > 1)
     for s in scen:
         rep.case(json.dumps(s["prog"]), any(x["op"] == "clone" for x in s["prog"]))
     rep.sample(scen[len(scen) // 2])
